@@ -42,6 +42,7 @@ def cases(tier):
         sp = lsops.approx_operand_specs(grid, tier)
         for i in range(len(sp)):
             yield {"kind": "approx-row", "grid": gi, "i": i}
+    yield {"kind": "far-grid"}
     n = 2 if tier == "quick" else 3
     dg = [[list(map(float, b)) for b in m] for m in multisets_upto(bars(4), n, min_size=1)]
     for i in range(len(dg)):
@@ -182,6 +183,27 @@ def run_case(case, ctx):
             check_norms(ctx, D, lsops.approx_ref(D), "grid", {"grid": grid, "A": sa, "B": sb, "op": "A-B"})
             E = ctx.call(lambda: 2 * A - B)
             check_norms(ctx, E, lsops.approx_ref(E), "grid", {"grid": grid, "A": sa, "B": sb, "op": "2A-B"})
+    elif kind == "far-grid":
+        # grid landscapes far from the origin relative to their node spacing (timestamp-like filtration values):
+        # the nodes np.linspace produces are not equally spaced to the last bit; the norm is the integral over
+        # THOSE nodes (exact rational reference), relative 1e-9
+        from persim import PersLandscapeApprox
+
+        for (st, sp, n) in ((1.7e9, 1.7e9 + 3.3, 500), (1e6, 1e6 + 1.0, 20001), (-2.5e8, -2.5e8 + 7.0, 1001), (1e9, 1e9 + 1.0, 300)):
+            xs = np.linspace(st, sp, n)
+            u = (xs - st) / (sp - st)
+            vals = np.array([np.maximum(0.0, np.minimum(u, 1 - u)) * 2.0, np.maximum(0.0, 0.5 - np.abs(u - 0.3)) - 0.1 * (u > 0.8)])
+            G = PersLandscapeApprox(values=vals, start=st, stop=sp, num_steps=n, hom_deg=0)
+            fs = [P.make(list(zip(xs.tolist(), [float(v) for v in row]))) for row in vals]
+            ctx.state(("far-grid", st, sp, n))
+            for p_ in (1, 2, 3, 2.5):
+                v = ctx.call(G.p_norm, p_)
+                ref = P.p_norm(fs, p_)
+                ctx.valid()
+                if not (is_num(v) and np.isfinite(v) and abs(float(v) - ref) <= 1e-9 * ref):
+                    ctx.violation("p-norm-grid", "p_norm(p=%r) of a grid landscape on [%r, %r] with %d nodes is not the integral over its nodes" % (p_, st, sp, n),
+                                  observed=v if is_num(v) else repr(v), expected=ref, extra={"start": st, "stop": sp, "num_steps": n})
+        ctx.nontriv("grid_far_from_origin")
     elif kind == "long":
         from persim import PersLandscapeApprox, PersLandscapeExact
 
